@@ -143,6 +143,8 @@ func childrenChangeToProto(change *resource.CollectionChange) *traits.PullChildr
 // The has slice should be sorted in ascending order by Trait.Name.
 // The returned slice will be sorted in ascending order by Trait.Name.
 func traitUnion(has []*traits.Trait, more ...trait.Name) []*traits.Trait {
+	// has belongs to the stored child, which readers and subscribers may be looking at: work on a copy
+	has = append(make([]*traits.Trait, 0, len(has)+len(more)), has...)
 	// has should be sorted by Trait.Name
 	for _, t := range more {
 		ts := string(t)
@@ -165,6 +167,8 @@ func traitUnion(has []*traits.Trait, more ...trait.Name) []*traits.Trait {
 // The has slice should be sorted in ascending order by Trait.Name.
 // The returned slice will be sorted in ascending order by Trait.Name.
 func traitRemove(has []*traits.Trait, remove ...trait.Name) []*traits.Trait {
+	// has belongs to the stored child, which readers and subscribers may be looking at: work on a copy
+	has = append(make([]*traits.Trait, 0, len(has)), has...)
 	// has should be sorted by Trait.Name
 	for _, t := range remove {
 		ts := string(t)
